@@ -6,24 +6,29 @@ CONFIG = {
     "design_ref": "4.15",
     "technique": "Lean 4 proof over an executable model of sophia_api::source (Source/TripleSource/QuadSource provided "
                  "methods, filter/map/filter_map/convert adapters as callback wrappers, iterator-of-Result and Rio batch "
-                 "sources, insert_all/remove_all, collectors, NT/NQ serializer closure); fault-injection differential "
+                 "sources, the buffering iterators MapSource/FilterMapSource::into_iter used as sources again, "
+                 "insert_all/remove_all, collectors, NT/NQ serializer closure); fault-injection differential "
                  "(real pipeline vs compiled model vs specification) over every fault position",
     "level_text": "Proof (unbounded: every item list / every script of parser steps, every adapter chain of any depth, "
                   "every callback with any captured state, every fault position): a run of try_for_each_item over "
                   "adapters(source) equals the specification 'feed the consumer chain(items before the fault) in order "
                   "until it fails; sink failure => SinkError(its error), else source failure => SourceError(its error), "
                   "else Ok' (run_spec), with corollaries prefix_exact, nothing_after, blame_source/blame_sink, "
-                  "stepwise_eq_whole (for every Source), no_fault_all, for_each_item, and insert_all/remove_all counts = "
-                  "size change of the set store. The theorems are about the Lean model; that the model is the Rust code "
+                  "stepwise_eq_whole (for every Source), no_fault_all, for_each_item, insert_all/remove_all counts = "
+                  "size change of the set store; and for MapSource/FilterMapSource::into_iter over any batch script "
+                  "(fault in the middle of a batch included): next() pops exactly the pending results, the iterator "
+                  "yields Ok(chain(items before the fault)) then the error (into_iter_yields/_prefix_exact), and used "
+                  "as a Source under further adapters it is transparent (into_iter_transparent), so all the above carry "
+                  "over. The theorems are about the Lean model; that the model is the Rust code "
                   "is checked differentially on every run (call log, result, error side and payload, counts, final "
                   "store, bytes written), exhaustively in the fault position.",
     "level_note": "Differential, not proof: correspondence model<->/repo; Rio's behaviour inside one parse_step (batch "
                   "boundaries are observed with the third-party parser alone and given to the model as a script); the "
                   "store model only tracks the object literal's index slot (subject/predicate/graph names are interned "
                   "beforehand in every generated scenario); beyond the first adapter the harness type-erases the "
-                  "pipeline between adapters (sink errors travel boxed through the real adapters). MapSource/"
-                  "FilterMapSource::into_iter (buffering iterators) and the Turtle/TriG/RDF-XML pretty serializers "
-                  "(which collect before writing) are not modelled. No native_decide.",
+                  "pipeline between adapters (sink errors travel boxed through the real adapters); at most one "
+                  ".into_iter() per chain. The Turtle/TriG/RDF-XML pretty serializers (which collect before writing) "
+                  "are not modelled. No native_decide.",
     "tables": [],
     "lean_targets": ["SophiaProofs.Props.C15", "SophiaProofs.Audit.C15"],
     "theorems": ["run_spec", "run_spec_iter", "fuel_suffices", "specSource_spec",
@@ -31,7 +36,10 @@ CONFIG = {
                  "prefix_exact_sink_fault", "prefix_exact_sink_fault_iter",
                  "nothing_after_source_fault", "nothing_after_sink_fault", "nothing_after_iter",
                  "blame_source", "blame_sink", "stepwise_eq_whole", "no_fault_all", "no_fault_all_log",
-                 "forEach_spec", "counts_insert_all", "counts_remove_all"],
+                 "forEach_spec", "counts_insert_all", "counts_remove_all",
+                 "into_iter_next_spec", "into_iter_yields", "into_iter_prefix_exact", "into_iter_run_spec",
+                 "into_iter_transparent", "into_iter_prefix_exact_source_fault", "into_iter_prefix_exact_sink_fault",
+                 "into_iter_nothing_after_source_fault", "into_iter_blame_source", "into_iter_blame_sink"],
     "native_ok": [],
     "trivial_re": r"^log=_ ret=ok",
     "rule": "item sequences (len 0..20, values colliding mod the filter moduli) x well-typed adapter chains (depth 0..3 "
@@ -43,7 +51,11 @@ CONFIG = {
             "sink failure on each delivered item; writer limit at each item boundary +-1; index full after each number "
             "of new terms; both kinds together); plus real Rio N-Triples/Turtle/N-Quads/TriG/generalized parsers on "
             "documents with a syntax error at each statement k (Turtle/TriG statements emitting several triples, steps "
-            "that emit and then fail). A case is non-trivial when something was delivered or an error was reported; "
+            "that emit and then fail); .into_iter() after map_items/map_triples/map_quads/filter_map_* at a random "
+            "position of the chain, in particular over a synthetic chunked Source (chunk sizes 0..3, source fault at "
+            "EVERY item position, i.e. also in the middle of a chunk) and over the real Turtle parser with a syntax "
+            "error at EVERY position of an object list / predicate list; corpus/C15 holds two minimal such inputs. "
+            "A case is non-trivial when something was delivered or an error was reported; "
             "distinct = distinct request lines.",
     "trusted_base": ["lean/SophiaModel/Model/Source.lean is a faithful transcription of api/src/source.rs, "
                      "source/{filter,map,filter_map,convert,_triple,_quad}.rs, rio/src/parser.rs, insert_all/remove_all "
